@@ -3,8 +3,8 @@
   witnesses for the `_partial` ones (finding F9: repeated meshio blocks; finding F14: image extent offset).
 -/
 import FcProofs.Props.C07
-namespace Fc
-open Spec
+namespace Fc.C07
+open Fc.C07.Spec
 
 /-! ### the hypotheses are satisfiable by non-trivial inputs -/
 
@@ -90,4 +90,4 @@ theorem extent_offset_full_statement_false :
 example : gridMesh [0, 0, 0] (.rect [[], [], []]) = some ⟨3, [[0, 0, 0]], [("VOXEL", [[0]])]⟩ ∧
     gridMesh [0, 0, 0] (.struct [[0, 0, 0]]) = none := by decide
 
-end Fc
+end Fc.C07
